@@ -139,6 +139,10 @@ func init() {
 	}
 }
 
+func init() {
+	verifExecs["schedtrace"] = func(t *testing.T, a []string) string { return verifExecs["sched"](t, a) }
+}
+
 // verifPrioDump: the priority tree as the scheduler holds it (map, parent pointers, sibling order, counters)
 func verifPrioDump(ws *priorityWriteScheduler) string {
 	ids := []int{}
